@@ -101,6 +101,7 @@ type PathResult struct {
 	FeasUnknown int
 	PCText      []string
 	Stubs       []string
+	KnownKeys   []string
 	Rounds      int
 }
 
@@ -116,6 +117,8 @@ type Config struct {
 	// Summaries: replace a function by a native summary.
 	Summaries map[string]func(m *Machine, args []Value) Value
 	KeepPCText bool
+	// Excuse: known-finding keys whose input class (vKnown) is assumed away.
+	Excuse map[string]bool
 	// ConcreteWitness, when set, makes vInt/vBool return these values (plain
 	// interpretation; used to validate the interpreter itself).
 	ConcreteWitness []string
